@@ -139,6 +139,43 @@ func runStress(seed int64) Result {
 		json.Unmarshal([]byte(txt), &r)
 		return &r
 	}
+	// first use of a FRESH Resolved from several goroutines at once (anything initialised lazily
+	// on the first ApplyDefaults / Validate would be written concurrently)
+	for round := 0; round < 12; round++ {
+		var fs jsonschema.Schema
+		json.Unmarshal([]byte(`{"properties":{"a":{"default":1},"r":{"default":"never"},"o":{"properties":{"x":{"default":"d"}},"required":["y"]}},
+		  "required":["r","q1","q2","q3","q4","q5","q6","q7","q8"],"minProperties":1,"maxProperties":9,"patternProperties":{"^z":{"pattern":"^a"}}}`), &fs)
+		frs, err := fs.Resolve(nil)
+		if err != nil {
+			panic(err)
+		}
+		var wg0 sync.WaitGroup
+		for g := 0; g < G; g++ {
+			wg0.Add(1)
+			go func(g int) {
+				defer wg0.Done()
+				var inst any = map[string]any{"o": map[string]any{}}
+				err := frs.ApplyDefaults(&inst)
+				want := map[string]any{"a": 1.0, "o": map[string]any{"x": "d"}}
+				if err != nil || !reflect.DeepEqual(inst, want) {
+					mu.Lock()
+					addFail("concurrent-first-defaults", "first ApplyDefaults on a fresh Resolved", want, fmt.Sprint(inst, err))
+					mu.Unlock()
+				}
+				got := frs.Validate(map[string]any{"r": 1.0, "zz": "ab"}) == nil
+				if got {
+					mu.Lock()
+					addFail("concurrent-first-validate", "first Validate on a fresh Resolved", false, got)
+					mu.Unlock()
+				}
+				mu.Lock()
+				res.Evaluations += 2
+				mu.Unlock()
+			}(g)
+		}
+		wg0.Wait()
+	}
+	res.Cases++
 	var wg sync.WaitGroup
 	for g := 0; g < G; g++ {
 		wg.Add(1)
